@@ -1,12 +1,14 @@
-"""C13 — dumping is repeatable and does not damage its argument.
+"""C13 - dumping is repeatable and does not damage its argument.
 
 Deductive core: a `modifies nothing` frame obligation for every method of the four encoder
 classes (one obligation per store / mutator-call site of the real AST), with exactly one
-permitted site: PDSLabelEncoder.encode's documented in-place GROUP->OBJECT conversion
-(`module[k] = self.objcls(v)`), whose effect on the caller's container is given by the
-*proved* C10 contract of OrderedMultiDict.__setitem__ (first occurrence replaced, later items
-with the same key dropped) - which is exactly the recorded finding KF-C13-dupkey when the
-group's name is duplicated.  Determinism: no read of time/random/environment in the encoders.
+permitted place: PDSLabelEncoder._replace_value, called only from PDSLabelEncoder.encode for the
+documented in-place GROUP->OBJECT conversion.  Its effect on the caller's container is a
+contract discharged by the T_seq verifier against the C10 contracts of OrderedMultiDict.items /
+clear / extend: the item at the index is replaced and every other item - also those sharing its
+key - keeps its place (before repo commit 70ea840 the conversion was `module[k] = objcls(v)`,
+whose proved __setitem__ contract drops later items with the key: finding KF-C13-dupkey, fixed).
+Determinism: no read of time/random/environment in the encoders.
 """
 import ast
 import time
@@ -19,9 +21,12 @@ from ..rtc import c13_dump_pure as drv
 ENC_CLASSES = ["PVLEncoder", "ODLEncoder", "PDSLabelEncoder", "ISISEncoder"]
 
 
+REPLACE_SITES = {"module[key]", "module.clear()", "module.extend(items)"}
+
+
 def allow(cls, meth, kind, text):
-    if cls == "PDSLabelEncoder" and meth == "encode" and kind == "store" and text.replace(" ", "") == "module[k]":
-        return "permitted:PDS3-group-to-object-conversion"
+    if cls == "PDSLabelEncoder" and meth == "_replace_value" and text.replace(" ", "") in REPLACE_SITES:
+        return "permitted:PDS3-group-to-object-conversion (effect: contract of _replace_value, section replace-value-contract)"
     return None
 
 
@@ -30,13 +35,26 @@ def frame_section():
                 rule="every store / in-place mutator call in every method of the four encoder classes must hit a fresh local")
     check_modifies(s, "pvl.encoder", classes=ENC_CLASSES, allow=allow,
                    skip_methods=("__init__", "add_quantity_cls", "_import_quantities"), prop="C13")
-    # the one permitted mutation: shape of the statement
+    # the one permitted mutation: _replace_value(module, i, k, self.objcls(v)), called only from PDSLabelEncoder.encode
     prog = Program(["pvl.encoder"])
     ci, fn = prog.function("pvl.encoder.PDSLabelEncoder.encode")
-    sites = [n for n in ast.walk(fn) if isinstance(n, ast.Assign) and isinstance(n.targets[0], ast.Subscript)]
-    ok = bool(sites) and all(ast.unparse(n.targets[0]) == "module[k]" and ast.unparse(n.value) == "self.objcls(v)" for n in sites)
-    s.obl("pvl.encoder.PDSLabelEncoder.encode:permitted-mutation-is-module[k]=self.objcls(v)", DISCHARGED if ok else FAILED,
-          "frame", function="pvl.encoder.PDSLabelEncoder.encode", carveouts=["KF-C13-dupkey"])
+    allcalls = call_sites("pvl.encoder", {"_replace_value"})
+    s.obl("pvl.encoder:_replace_value-is-called-only-from-PDSLabelEncoder.encode",
+          DISCHARGED if allcalls and all(c[0] == "PDSLabelEncoder.encode" for c in allcalls) else FAILED, "frame",
+          detail=str([c[0] for c in allcalls]))
+    sites = [n for n in ast.walk(fn) if isinstance(n, ast.Call) and isinstance(n.func, ast.Attribute)
+             and n.func.attr == "_replace_value"]
+    ok = bool(sites) and all([ast.unparse(a) for a in n.args] == ["module", "i", "k", "self.objcls(v)"] and not n.keywords
+                             for n in sites)
+    s.obl("pvl.encoder.PDSLabelEncoder.encode:permitted-mutation-is-_replace_value(module, i, k, self.objcls(v))",
+          DISCHARGED if ok else FAILED, "frame", function="pvl.encoder.PDSLabelEncoder.encode")
+    stores = [n for n in ast.walk(fn) if isinstance(n, (ast.Assign, ast.AugAssign)) and any(
+        isinstance(t, (ast.Subscript, ast.Attribute)) for t in (n.targets if isinstance(n, ast.Assign) else [n.target]))]
+    s.obl("pvl.encoder.PDSLabelEncoder.encode:no-direct-store-into-the-module", DISCHARGED if not stores else FAILED, "frame",
+          detail="; ".join(ast.unparse(n) for n in stores[:3]))
+    pre_ok = all(_index_and_key_from_enumerate(fn, n) for n in sites)
+    s.obl("pvl.encoder.PDSLabelEncoder.encode:_replace_value-precondition: (i, (k, v)) come from enumerate(module.items())",
+          DISCHARGED if pre_ok else FAILED, "frame", function="pvl.encoder.PDSLabelEncoder.encode")
     guarded = all(_guarded_by_group_test(fn, n) for n in sites)
     s.obl("pvl.encoder.PDSLabelEncoder.encode:conversion-only-for-a-group-value-followed-by-break", DISCHARGED if guarded else FAILED,
           "frame", function="pvl.encoder.PDSLabelEncoder.encode")
@@ -57,18 +75,57 @@ def frame_section():
     return s
 
 
-def _guarded_by_group_test(fn, assign):
+def _stmt_of(fn, call):
     for n in ast.walk(fn):
-        if isinstance(n, ast.If) and assign in n.body:
+        if isinstance(n, ast.Expr) and n.value is call:
+            return n
+    return None
+
+
+def _guarded_by_group_test(fn, call):
+    st = _stmt_of(fn, call)
+    for n in ast.walk(fn):
+        if isinstance(n, ast.If) and st in n.body:
             t = ast.unparse(n.test)
-            idx = n.body.index(assign)
+            idx = n.body.index(st)
             brk = idx + 1 < len(n.body) and isinstance(n.body[idx + 1], ast.Break)
             return "isinstance(v, self.grpcls)" in t and brk
     return False
 
 
+def _index_and_key_from_enumerate(fn, call):
+    """the call sits (under the if) directly in `for i, (k, v) in enumerate(module.items()):` and nothing between the loop
+    head and the call changes the module (the call is followed by break)"""
+    st = _stmt_of(fn, call)
+    for n in ast.walk(fn):
+        if isinstance(n, ast.For) and len(n.body) == 1 and isinstance(n.body[0], ast.If) and st in n.body[0].body:
+            return ast.unparse(n.target) == "(i, (k, v))" and ast.unparse(n.iter) == "enumerate(module.items())"
+    return False
+
+
+def replace_value_section(ctx):
+    from ..pyvc.verify import verify_contracts
+    from ..pyvc.seqtheory import SeqTheory
+    from ..contracts import collections as cc, encoder as ce
+    s = Section("replace-value-contract", "smt",
+                rule="PDSLabelEncoder._replace_value on a multi-dict: the item at index is replaced, every other item keeps its "
+                     "place (callee contracts: OrderedMultiDict.items/clear/extend, discharged by check C10)")
+    t0 = time.time()
+    cs = cc.contracts()
+    for c in cs:
+        c.assumed = True
+        c.note = "discharged by check C10"
+    verify_contracts(s, cs + ce.contracts(), SeqTheory, ["pvl.collections", "pvl.encoder"], jobs=ctx.jobs, std=True)
+    s.assumptions = ["the OrderedMultiDict contracts used at the three call sites are the ones check C10 discharges (same contract "
+                     "objects, vf/contracts/collections.py)",
+                     "plain dict / other mapping arguments: module[key] = value of a mapping with unique keys (builtin)",
+                     "a list bound to a local name by list(...) is a fresh copy (no aliasing between local lists in this function)"]
+    s.seconds = time.time() - t0
+    return s
+
+
 def run(ctx):
-    secs = [frame_section()]
+    secs = [frame_section(), replace_value_section(ctx)]
     secs += drv.sections(ctx)
     return secs
 
